@@ -740,7 +740,7 @@ impl<'a> GExec<'a> {
                 data: ScVal::Void,
             });
         }
-        if !ctx.check(res.events == expected, props, "approve/wrong-events", || {
+        if !ctx.check(crate::judge::events_match(&res.events, &expected, &["message_approved"]), props, "approve/wrong-events", || {
             format!(
                 "expected {} message_approved event(s) for the new ids only, got {:?}",
                 expected.len(),
@@ -1023,7 +1023,7 @@ impl<'a> GExec<'a> {
                 topics: vec![sym("message_executed"), claimed.to_scval()],
                 data: ScVal::Void,
             }];
-            ctx.check(res.events == exp, &["C02"], "consume/wrong-events", || {
+            ctx.check(crate::judge::events_match(&res.events, &exp, &[]), &["C02"], "consume/wrong-events", || {
                 format!("expected one message_executed event, got {:?}", res.events.iter().map(|e| e.name()).collect::<Vec<_>>())
             });
         } else {
@@ -1129,7 +1129,7 @@ impl<'a> GExec<'a> {
             ],
             data: svec(vec![sbytes(&payload)]),
         };
-        ctx.check(res.events == vec![gw_ev, app_ev], &["C16", "C02"], "deliver/wrong-events", || {
+        ctx.check(crate::judge::events_match(&res.events, &[gw_ev, app_ev], &[]), &["C16", "C02"], "deliver/wrong-events", || {
             format!("expected message_executed + app event, got {:?}", res.events.iter().map(|e| e.name()).collect::<Vec<_>>())
         });
     }
